@@ -265,11 +265,54 @@ def _pair(acc, a, b, check):
             acc.fail(check, {"a": a, "b": b}, v.observed, v.expected, bucket=v.bucket)
 
 
+def handwritten_versions(acc, ctx):
+    """Description FILES written by hand: a version written without quotes (`suit-current-version: 1.10`) reaches the tool as whatever the
+    YAML/JSON reader makes of the text. The tool may refuse it - if it accepts it, the version it encodes is the one that was written."""
+    d = ctx.tmpdir("hand")
+    try:
+        for text in ("1.10", "1.20", "3.100", "2.0", "1.0", "10.10", "0.10", "1.1", "1.9", "7", "010", "1.50", "1_0.5"):
+            for fmt in ("yaml", "json"):
+                if fmt == "json" and (text.startswith("0") and len(text) > 1 and text[1] != "." or "_" in text):
+                    continue  # not a JSON number
+                src, out = os.path.join(d, f"v.{fmt}"), os.path.join(d, "v.suit")
+                with open(src, "w") as fh:
+                    if fmt == "yaml":
+                        fh.write("SUIT_Envelope_Tagged:\n  suit-authentication-wrapper:\n    SuitDigest:\n      suit-digest-algorithm-id: cose-alg-sha-256\n"
+                                 "  suit-manifest:\n    suit-manifest-version: 1\n    suit-manifest-sequence-number: 1\n    suit-common: {}\n"
+                                 f"    suit-current-version: {text}\n")
+                    else:
+                        fh.write('{"SUIT_Envelope_Tagged": {"suit-authentication-wrapper": {"SuitDigest": {"suit-digest-algorithm-id": "cose-alg-sha-256"}}, '
+                                 f'"suit-manifest": {{"suit-manifest-version": 1, "suit-manifest-sequence-number": 1, "suit-common": {{}}, "suit-current-version": {text}}}}}}}\n')
+                if os.path.exists(out):
+                    os.unlink(out)
+                try:
+                    sut.create_from_file(src, out)
+                except boot.HarnessError:
+                    raise
+                except Exception:
+                    acc.case(nt_key=("hand", text, fmt), classes=["handwritten-unquoted-version", "handwritten:refused"])
+                    continue
+                with open(out, "rb") as fh:
+                    got = cb.loads(cb.loads(cb.loads(fh.read()).value.get(3)).get(6))
+                acc.case(nt_key=("hand", text, fmt), classes=["handwritten-unquoted-version", "handwritten:accepted"], sample={"handwritten": text, "format": fmt, "encoded": got})
+                want = [int(x) for x in text.replace("_", "").split(".")] if all(x.replace("_", "").isdigit() for x in text.split(".")) else None
+                if got != want:
+                    acc.fail("handwritten", {"handwritten": text, "format": fmt}, f"version written as {text} (unquoted, {fmt}) is accepted and encoded as {got}",
+                             f"refusal, or {want}", bucket="handwritten-version")
+                    return
+    finally:
+        import shutil
+
+        shutil.rmtree(d, ignore_errors=True)
+
+
 def run_shard(ctx, spec):
     import random
 
     acc = Acc()
     kind = spec["kind"]
+    if kind == "small-pairs" and spec["rem"] == 0:
+        handwritten_versions(acc, ctx)
     if kind == "small-pairs":
         strs = small_strings()
         exhaustive = True
